@@ -54,8 +54,8 @@ THEOREM_RE = re.compile(
     r"^[ \t]*(?:@\[[^\]\n]*\][ \t\n]*)*(?:(?:private|protected|nonrec)[ \t]+)*(theorem|lemma)[ \t]+([^\s:({\[⦃]+)", re.M)
 NS_RE = re.compile(r"^[ \t]*(?:(?:noncomputable|public|private)[ \t]+)*(namespace|section|mutual|end)\b[ \t]*([^\s]*)", re.M)
 MSG_RE = re.compile(r"^(?P<file>[^\n:]+):(?P<line>\d+):(?P<col>\d+): (?P<sev>error|warning|info)\b", re.M)
-AXIOMS_RE = re.compile(r"'([^'\n]+)' depends on axioms: \[(.*?)\]", re.S)
-NOAXIOMS_RE = re.compile(r"'([^'\n]+)' does not depend on any axioms")
+AXIOMS_RE = re.compile(r"'([^\n]+?)' depends on axioms: \[(.*?)\]", re.S)          # names may end in primes: 'foo'' depends on ...
+NOAXIOMS_RE = re.compile(r"'([^\n]+?)' does not depend on any axioms")
 
 
 def lean_version():
